@@ -2119,10 +2119,10 @@ def oracle_tables():
 
 # ------------------------------------------------------------------ pipeline level
 
-def witness_dataset(name):
-    """hand-made inputs for the two defects found (docs/C04.md)"""
+def witness_dataset(name, control=False):
+    """hand-made inputs for the two defects found (docs/C04.md); `control`: the same locus in a read cluster that is NOT cut"""
     from gen import synth
-    ds = SPLIT.witness_dataset(name)        # growth c04split: loci whose read cluster is cut into sub-regions
+    ds = SPLIT.witness_dataset(name, control=control)        # growth c04split: loci whose read cluster is cut into sub-regions
     if ds is not None:
         return ds
     ds = synth.Dataset(7)
@@ -2169,7 +2169,7 @@ def witness_dataset(name):
 
 def build_dataset(spec):
     if spec["kind"] == "witness":
-        return witness_dataset(spec["name"])
+        return witness_dataset(spec["name"], control=bool(spec.get("control")))
     if spec["kind"] == "split":
         return SPLIT.build_dataset(spec)
     if spec["kind"] == "layout":
@@ -2246,6 +2246,11 @@ def check_outputs(inputs, outdir, cfg):
         if t["introns"]:
             ref_chains[(t["chr"], t["strand"])].add(tuple(t["introns"]))
     level = effective_level(cfg)
+    for tid, t in sorted(models.items()):
+        if t.get("dup"):
+            # interface to C17 (distinct ids; hypothesis of has_supporting_read / repeated_chain_keeps_reads): round c04rep re-uses the id
+            # of the model reported first for the reads of a later constructor - the model itself must not be printed again
+            res.append(("duplicate_transcript_id", "", "transcript_models.gtf has two transcript records with the id %s" % tid))
     novel = {tid: t for tid, t in models.items() if tid not in ref}
     seen_chain = {}
     ndot = 0
@@ -2313,7 +2318,21 @@ def run_pipeline_case(spec, cfg, keep=None):
                                   timeout=150)
         if rc != 0:
             return [("pipeline_crash", "", log[-600:])], {}
-        return check_outputs(inputs, os.path.join(d, "out"), cfg)
+        fails, stats = check_outputs(inputs, os.path.join(d, "out"), cfg)
+        # round c04rep: a cut read cluster against the SAME locus in a cluster that is not cut (the deep neighbour left out):
+        # the reads of the locus must be listed under models with the same intron chains and counted the same
+        cspec = SPLIT.control_spec(spec)
+        if cspec is not None:
+            cin = build_dataset(cspec).write(os.path.join(d, "cin"))
+            rc2, log2 = P.run_isoquant(os.path.join(d, "cout"), P.std_args(cin, threads=1, genedb=bool(cfg.get("genedb")),
+                                                                           data_type=cfg.get("data_type", "nanopore"), extra=extra),
+                                       timeout=150)
+            if rc2 != 0:
+                return fails + [("pipeline_crash", "", log2[-600:])], stats
+            dfails, dstats = SPLIT.differential(os.path.join(d, "out"), os.path.join(d, "cout"))
+            fails = fails + dfails
+            stats = dict(stats, **dstats)
+        return fails, stats
     finally:
         shutil.rmtree(d, ignore_errors=True)
 
